@@ -506,11 +506,24 @@ Proof.
   rewrite (sub_nl_nl1_flat (length ls)) by (lia || assumption). reflexivity.
 Qed.
 
-(* ---------- br'[ \n]+$' -> b'\n' : one line feed instead of all trailing blanks and line feeds ---------- *)
+(* ---------- the end of the file:  br'[ \n]*\n[ \n]*\Z' -> b'\n'  then  br' +\Z' -> b'' ----------
+   all trailing blanks and line feeds go; one line feed is written in their place if there was one *)
 Fixpoint trail_nl (s : list Z) : list Z :=
   match s with
   | [] => []
-  | c :: r => if forallb is_sp_nl s then [NL] else c :: trail_nl r
+  | c :: r => if forallb is_sp_nl s then (if existsb is_nl s then [NL] else []) else c :: trail_nl r
+  end.
+
+Fixpoint trail_a (s : list Z) : list Z :=
+  match s with
+  | [] => []
+  | c :: r => if forallb is_sp_nl s && existsb is_nl s then [NL] else c :: trail_a r
+  end.
+
+Fixpoint trail_b (s : list Z) : list Z :=
+  match s with
+  | [] => []
+  | c :: r => if forallb is_sp s then [] else c :: trail_b r
   end.
 
 Lemma span_all p s : forallb p s = true -> span_p p s = (length s, []).
@@ -525,18 +538,109 @@ Proof.
   rewrite <- H1 in H2. congruence.
 Qed.
 
-Lemma sub_spnl1_end s : resub m_spnl1_end 0 s = trail_nl s.
+Lemma sub_spnl_nl_end s : resub m_spnl_nl_end 0 s = trail_a s.
 Proof.
-  induction s as [|c r IH]; [reflexivity|]. cbn [resub]. unfold m_spnl1_end at 1.
-  cbn [trail_nl]. destruct (forallb is_sp_nl (c :: r)) eqn:F.
+  induction s as [|c r IH]; [reflexivity|]. cbn [resub]. unfold m_spnl_nl_end at 1.
+  cbn [trail_a]. destruct (forallb is_sp_nl (c :: r)) eqn:F.
   - pose proof F as F'. cbn [forallb] in F'. apply andb_true_iff in F'. destruct F' as [Fc Fr].
-    rewrite Fc. rewrite (span_all _ _ F). cbn [length app].
-    pose proof (resub_skip m_spnl1_end r (length r) [] eq_refl) as Hk. rewrite app_nil_r in Hk.
-    rewrite Hk. reflexivity.
-  - destruct (is_sp_nl c) eqn:Fc.
+    rewrite Fc. rewrite (span_all _ _ F). cbn [andb]. destruct (existsb is_nl (c :: r)).
+    + cbn [length app].
+      pose proof (resub_skip m_spnl_nl_end r (length r) [] eq_refl) as Hk. rewrite app_nil_r in Hk.
+      rewrite Hk. reflexivity.
+    + f_equal. exact IH.
+  - cbn [andb]. destruct (is_sp_nl c) eqn:Fc.
     + destruct (span_p is_sp_nl (c :: r)) as [n t] eqn:E.
       pose proof (span_not_all _ _ _ _ E F) as Ht. destruct t; [congruence|]. f_equal. exact IH.
     + f_equal. exact IH.
+Qed.
+
+Lemma sub_sp1_end s : resub m_sp1_end 0 s = trail_b s.
+Proof.
+  induction s as [|c r IH]; [reflexivity|]. cbn [resub]. unfold m_sp1_end at 1.
+  cbn [trail_b]. destruct (forallb is_sp (c :: r)) eqn:F.
+  - pose proof F as F'. cbn [forallb] in F'. apply andb_true_iff in F'. destruct F' as [Fc Fr].
+    unfold is_sp in Fc at 1. rewrite Fc. rewrite (span_all _ _ F). cbn [length app].
+    pose proof (resub_skip m_sp1_end r (length r) [] eq_refl) as Hk. rewrite app_nil_r in Hk.
+    rewrite Hk. reflexivity.
+  - destruct (c =? SP) eqn:Fc.
+    + destruct (span_p is_sp (c :: r)) as [n t] eqn:E.
+      pose proof (span_not_all _ _ _ _ E F) as Ht. destruct t; [congruence|]. f_equal. exact IH.
+    + f_equal. exact IH.
+Qed.
+
+Lemma all_sp_all_spnl s : forallb is_sp s = true -> forallb is_sp_nl s = true.
+Proof. apply forallb_impl. unfold is_sp, is_sp_nl. intros x ->. reflexivity. Qed.
+
+Lemma all_spnl_no_nl s : forallb is_sp_nl s = true -> existsb is_nl s = false -> forallb is_sp s = true.
+Proof.
+  induction s as [|c r IH]; [reflexivity|]. cbn [forallb existsb]. rewrite andb_true_iff, orb_false_iff.
+  intros [Hc Hr] [Nc Nr]. rewrite (IH Hr Nr), andb_true_r. unfold is_sp_nl in Hc. unfold is_nl in Nc. unfold is_sp.
+  rewrite Nc, orb_false_r in Hc. exact Hc.
+Qed.
+
+Lemma trail_a_all_spnl s : forallb is_sp_nl (trail_a s) = forallb is_sp_nl s.
+Proof.
+  induction s as [|c r IH]; [reflexivity|]. cbn [trail_a]. destruct (forallb is_sp_nl (c :: r)) eqn:F.
+  - cbn [andb]. destruct (existsb is_nl (c :: r)); [reflexivity|]. cbn [forallb] in *. rewrite IH. exact F.
+  - cbn [andb forallb] in *. rewrite IH. exact F.
+Qed.
+
+Lemma trail_a_no_nl s : existsb is_nl s = false -> trail_a s = s.
+Proof.
+  induction s as [|c r IH]; intros H; [reflexivity|]. cbn [trail_a]. rewrite H, andb_false_r. f_equal. apply IH.
+  cbn [existsb] in H. apply orb_false_iff in H. apply H.
+Qed.
+
+Lemma sub_end_of_file s : resub m_sp1_end 0 (resub m_spnl_nl_end 0 s) = trail_nl s.
+Proof.
+  rewrite sub_spnl_nl_end, sub_sp1_end. induction s as [|c r IH]; [reflexivity|].
+  cbn [trail_nl]. destruct (forallb is_sp_nl (c :: r)) eqn:F.
+  - destruct (existsb is_nl (c :: r)) eqn:N.
+    + cbn [trail_a]. rewrite F, N. reflexivity.
+    + rewrite (trail_a_no_nl _ N). pose proof (all_spnl_no_nl _ F N) as A. cbn [trail_b]. rewrite A. reflexivity.
+  - cbn [trail_a]. rewrite F. cbn [andb trail_b].
+    assert (A : forallb is_sp (c :: trail_a r) = false).
+    { destruct (forallb is_sp (c :: trail_a r)) eqn:A; [|reflexivity]. apply all_sp_all_spnl in A.
+      cbn [forallb] in A, F. rewrite trail_a_all_spnl in A. congruence. }
+    rewrite A. f_equal. exact IH.
+Qed.
+
+Lemma trail_nl_allspnl s : forallb is_sp_nl s = true ->
+  trail_nl s = if existsb is_nl s then [NL] else [].
+Proof.
+  destruct s as [|c r]; [reflexivity|]. intros H. cbn [trail_nl]. rewrite H. reflexivity.
+Qed.
+
+Lemma trail_nl_core a c b : is_sp_nl c = false -> forallb is_sp_nl b = true ->
+  trail_nl (a ++ c :: b) = a ++ c :: (if existsb is_nl b then [NL] else []).
+Proof.
+  intros Hc Hb. induction a as [|x a IH].
+  - cbn [app trail_nl forallb]. rewrite Hc. cbn [andb]. f_equal. apply trail_nl_allspnl. exact Hb.
+  - cbn [app trail_nl]. assert (F : forallb is_sp_nl (x :: a ++ c :: b) = false).
+    { cbn [forallb]. rewrite forallb_app. cbn [forallb]. rewrite Hc. rewrite andb_false_l, !andb_false_r. reflexivity. }
+    rewrite F. f_equal. exact IH.
+Qed.
+
+(* the text is all blanks and line feeds, or it has a last byte that is neither *)
+Lemma spnl_decomp s : forallb is_sp_nl s = true \/
+  exists a c b, s = a ++ c :: b /\ is_sp_nl c = false /\ forallb is_sp_nl b = true.
+Proof.
+  induction s as [|x r IH]; [left; reflexivity|].
+  destruct IH as [Hr | (a & c & b & -> & Hc & Hb)].
+  - destruct (is_sp_nl x) eqn:Hx.
+    + left. cbn [forallb]. rewrite Hx, Hr. reflexivity.
+    + right. exists [], x, r. auto.
+  - right. exists (x :: a), c, b. auto.
+Qed.
+
+Lemma trail_nl_spec s :
+  (forallb is_sp_nl s = true /\ trail_nl s = if existsb is_nl s then [NL] else []) \/
+  (exists a c b, s = a ++ c :: b /\ is_sp_nl c = false /\ forallb is_sp_nl b = true /\
+                 trail_nl s = a ++ c :: (if existsb is_nl b then [NL] else [])).
+Proof.
+  destruct (spnl_decomp s) as [H | (a & c & b & -> & Hc & Hb)].
+  - left. split; [exact H | apply trail_nl_allspnl; exact H].
+  - right. exists a, c, b. repeat split; try assumption. apply trail_nl_core; assumption.
 Qed.
 
 (* ====================================================================== the whole pipeline on lines *)
@@ -707,7 +811,7 @@ Proof.
   (* 11 *)
   rewrite sub_nl_nl1_lines by (constructor; assumption).
   (* 12 *)
-  rewrite sub_spnl1_end.
+  rewrite sub_end_of_file.
   assert (EL : h10 :: sq t9 = fmt_lines cfg l0 ls).
   { unfold fmt_lines, fmt_head, fmt_tail. fold ind. fold t5. fold h5. unfold h10, h8, h6, t9, t7.
     destruct (f_at_start cfg); reflexivity. }
@@ -1058,20 +1162,36 @@ Proof.
   apply IH. intros x Hx. apply H. right. exact Hx.
 Qed.
 
+Definition starts_nl (t : list Z) : bool := match t with c :: _ => c =? NL | [] => false end.
+
+Lemma has_sp_nl_app a b :
+  has_sp_nl (a ++ b) = has_sp_nl a || has_sp_nl b || (ends_sp a && starts_nl b).
+Proof.
+  induction a as [|c a IH].
+  - cbn. rewrite orb_false_r. reflexivity.
+  - destruct a as [|d a'].
+    + cbn [app has_sp_nl ends_sp]. destruct b as [|e b']; cbn [starts_nl has_sp_nl].
+      * rewrite andb_false_r. reflexivity.
+      * destruct ((c =? SP) && (e =? NL)); cbn; [rewrite orb_true_r|rewrite orb_false_r]; reflexivity.
+    + change ((c :: d :: a') ++ b) with (c :: (d :: a') ++ b).
+      change (has_sp_nl (c :: (d :: a') ++ b)) with (((c =? SP) && (d =? NL)) || has_sp_nl ((d :: a') ++ b)).
+      rewrite IH. change (has_sp_nl (c :: d :: a')) with (((c =? SP) && (d =? NL)) || has_sp_nl (d :: a')).
+      change (ends_sp (c :: d :: a')) with (ends_sp (d :: a')).
+      rewrite !orb_assoc. reflexivity.
+Qed.
+
+Lemma has_sp_nl_prefix a b : has_sp_nl (a ++ b) = false -> has_sp_nl a = false.
+Proof. rewrite has_sp_nl_app, !orb_false_iff. intros [[H _] _]. exact H. Qed.
+
 Lemma has_sp_nl_trail_nl s : has_sp_nl s = false -> has_sp_nl (trail_nl s) = false.
 Proof.
-  induction s as [|c r IH]; intros H; [reflexivity|]. cbn [trail_nl].
-  destruct (forallb is_sp_nl (c :: r)) eqn:F; [reflexivity|].
-  destruct r as [|d r']; [reflexivity|].
-  assert (Hr : has_sp_nl (d :: r') = false).
-  { cbn [has_sp_nl] in H. apply orb_false_iff in H. apply H. }
-  specialize (IH Hr). cbn [trail_nl] in *.
-  destruct (forallb is_sp_nl (d :: r')) eqn:F2.
-  - cbn [has_sp_nl]. rewrite Z.eqb_refl, andb_true_r, orb_false_r.
-    cbn [forallb] in F. cbn [forallb] in F2. rewrite F2, andb_true_r in F.
-    unfold is_sp_nl in F. apply orb_false_iff in F. apply F.
-  - cbn [has_sp_nl]. cbn [has_sp_nl] in H. apply orb_false_iff in H. destruct H as [H1 _].
-    rewrite H1. cbn [orb]. exact IH.
+  intros H. destruct (trail_nl_spec s) as [[_ ->] | (a & c & b & -> & Hc & _ & ->)].
+  - destruct (existsb is_nl s); reflexivity.
+  - assert (Hp : has_sp_nl (a ++ [c]) = false).
+    { apply (has_sp_nl_prefix _ b). rewrite <- app_assoc. exact H. }
+    destruct (existsb is_nl b); [|exact Hp].
+    change (a ++ [c; NL]) with (a ++ [c] ++ [NL]). rewrite app_assoc, has_sp_nl_app, Hp.
+    rewrite ends_sp_app by discriminate. cbn. unfold is_sp_nl in Hc. apply orb_false_iff in Hc. destruct Hc as [-> _]. reflexivity.
 Qed.
 
 Theorem fmt_run_no_trailing_blank cfg r : has_sp_nl (fmt_run cfg r) = false.
@@ -1178,31 +1298,15 @@ Proof.
       * cbn [app] in *. cbn [has3nl]. cbn [has3nl] in IH. rewrite IH. reflexivity.
 Qed.
 
-Lemma trail_nl_spec s :
-  (s = [] /\ trail_nl s = []) \/
-  (s <> [] /\ forallb is_sp_nl s = true /\ trail_nl s = [NL]) \/
-  (exists a c b, s = a ++ c :: b /\ is_sp_nl c = false /\ forallb is_sp_nl b = true /\
-                 trail_nl s = a ++ c :: (if is_nil b then [] else [NL])).
-Proof.
-  induction s as [|x r IH]; [left; auto|]. right. cbn [trail_nl].
-  destruct (forallb is_sp_nl (x :: r)) eqn:F.
-  - left. split; [discriminate | split; reflexivity].
-  - right. destruct IH as [[-> ->] | [(Hne & Fr & ->) | (a & c & b & -> & Hc & Hb & ->)]].
-    + exists [], x, []. cbn in F. rewrite andb_true_r in F. repeat split; assumption.
-    + exists [], x, r. cbn [forallb] in F. rewrite Fr, andb_true_r in F.
-      destruct r; [congruence|]. repeat split; assumption.
-    + exists (x :: a), c, b. repeat split; assumption.
-Qed.
-
 Lemma has3nl_trail_nl s : has3nl s = false -> has3nl (trail_nl s) = false.
 Proof.
-  intros H. destruct (trail_nl_spec s) as [[-> ->] | [(_ & _ & ->) | (a & c & b & -> & Hc & _ & ->)]];
-    try reflexivity.
-  assert (Hc' : c <> NL).
-  { intros ->. unfold is_sp_nl in Hc. rewrite Z.eqb_refl, orb_true_r in Hc. discriminate. }
-  assert (Hp : has3nl (a ++ [c]) = false).
-  { apply (has3nl_prefix _ b). rewrite <- app_assoc. exact H. }
-  destruct (is_nil b); [exact Hp|]. rewrite has3nl_snoc_nl by exact Hc'. exact Hp.
+  intros H. destruct (trail_nl_spec s) as [[_ ->] | (a & c & b & -> & Hc & _ & ->)].
+  - destruct (existsb is_nl s); reflexivity.
+  - assert (Hc' : c <> NL).
+    { intros ->. unfold is_sp_nl in Hc. rewrite Z.eqb_refl, orb_true_r in Hc. discriminate. }
+    assert (Hp : has3nl (a ++ [c]) = false).
+    { apply (has3nl_prefix _ b). rewrite <- app_assoc. exact H. }
+    destruct (existsb is_nl b); [|exact Hp]. rewrite has3nl_snoc_nl by exact Hc'. exact Hp.
 Qed.
 
 Theorem fmt_run_blank_lines cfg r : has3nl (fmt_run cfg r) = false.
@@ -1225,9 +1329,9 @@ Proof.
   intros He.
   destruct (split_nl (canon_ws r)) as [|l0 ls] eqn:HS; [destruct (split_nl_nonempty _ HS)|].
   rewrite (fmt_run_lines cfg r l0 ls HS), He.
-  destruct (trail_nl_spec (joinl (fmt_lines cfg l0 ls)))
-    as [[_ ->] | [(_ & _ & ->) | (a & c & b & _ & Hc & _ & ->)]]; auto.
-  right. right. exists a, c. split; [exact Hc|]. destruct (is_nil b); auto.
+  destruct (trail_nl_spec (joinl (fmt_lines cfg l0 ls))) as [[_ ->] | (a & c & b & _ & Hc & _ & ->)].
+  - destruct (existsb is_nl _); auto.
+  - right. right. exists a, c. split; [exact Hc|]. destruct (existsb is_nl b); auto.
 Qed.
 
 (* ====================================================================== E: only the text modulo line-edge blanks matters *)
@@ -1609,9 +1713,13 @@ Proof.
     destruct (c =? NL); [|discriminate]. destruct (span_p is_nl t) as [n u]. destruct n; [discriminate|].
     intros [= <- _]. fc. }
   destruct (f_at_end cfg); [|exact H11].
-  apply resub_chars; [|exact H11]. intros s rep k. unfold m_spnl1_end. destruct s as [|c t]; [discriminate|].
+  apply resub_chars.
+  { intros s rep k. unfold m_sp1_end. destruct s as [|c t]; [discriminate|].
+    destruct (c =? SP); [|discriminate]. destruct (span_p is_sp (c :: t)) as [n u]. destruct u; [|discriminate].
+    intros [= <- _]. constructor. }
+  apply resub_chars; [|exact H11]. intros s rep k. unfold m_spnl_nl_end. destruct s as [|c t]; [discriminate|].
   destruct (is_sp_nl c); [|discriminate]. destruct (span_p is_sp_nl (c :: t)) as [n u]. destruct u; [|discriminate].
-  intros [= <- _]. fc.
+  destruct (existsb is_nl (c :: t)); [|discriminate]. intros [= <- _]. fc.
 Qed.
 
 (* ---------- the formatted lines are a fixed point of the line pipeline ---------- *)
@@ -1816,20 +1924,6 @@ Lemma joinl_snoc L x : L <> [] -> joinl (L ++ [x]) = joinl L ++ NL :: x.
 Proof.
   destruct L as [|l ls]; [congruence|]. intros _. cbn [app joinl]. rewrite flat_app, <- app_assoc.
   cbn [flat map concat]. rewrite app_nil_r. reflexivity.
-Qed.
-
-Lemma trail_nl_all s : s <> [] -> forallb is_sp_nl s = true -> trail_nl s = [NL].
-Proof. destruct s; [congruence|]. intros _ H. cbn [trail_nl]. rewrite H. reflexivity. Qed.
-
-Lemma trail_nl_core a c b : is_sp_nl c = false -> forallb is_sp_nl b = true ->
-  trail_nl (a ++ c :: b) = a ++ c :: (if is_nil b then [] else [NL]).
-Proof.
-  intros Hc Hb. induction a as [|x a IH].
-  - cbn [app trail_nl forallb]. rewrite Hc. cbn [andb]. f_equal.
-    destruct b as [|y b]; [reflexivity|]. cbn [is_nil]. apply trail_nl_all; [discriminate | exact Hb].
-  - cbn [app trail_nl]. assert (F : forallb is_sp_nl (x :: a ++ c :: b) = false).
-    { cbn [forallb]. rewrite forallb_app. cbn [forallb]. rewrite Hc. rewrite andb_false_l, !andb_false_r. reflexivity. }
-    rewrite F. f_equal. exact IH.
 Qed.
 
 (* ---------- blanks appended to a line that is not blank ---------- *)
@@ -2097,8 +2191,93 @@ Proof.
   assert (ED : (if f_at_start cfg then dollar_head [] [indent_bytes cfg] else []) = [])
     by (destruct (f_at_start cfg); [unfold dollar_head; destruct (_ && _)|]; reflexivity).
   rewrite ED. cbn [joinl flat map concat app]. rewrite app_nil_r.
-  apply trail_nl_all; [discriminate|]. cbn [forallb]. unfold indent_bytes.
+  rewrite trail_nl_allspnl; [reflexivity|]. cbn [forallb]. unfold indent_bytes.
   clear. induction (Z.to_nat (f_width cfg) * Z.to_nat (f_depth cfg))%nat; cbn; auto.
+Qed.
+
+
+Lemma dbl_swap_last P x x' : x <> [] -> x' <> [] -> dbl (P ++ [x]) = false -> dbl (P ++ [x']) = false.
+Proof.
+  intros Hx Hx'. induction P as [|p P IH]; intros H; [reflexivity|].
+  destruct P as [|p' P'']; [reflexivity|].
+  cbn [app] in *. destruct P'' as [|p2 P3].
+  - cbn [app dbl] in *. exact H.
+  - rewrite dbl_cons3 by (cbn; discriminate). rewrite dbl_cons3 in H by (cbn; discriminate).
+    apply orb_false_iff in H. destruct H as [H1 H2]. rewrite H1. cbn [orb]. apply IH. exact H2.
+Qed.
+
+(* the same text cut after its last byte that is neither blank nor line feed, when only blanks followed:
+   its lines are a fixed point as they are *)
+Lemma fmt_lines_end_fixed_nonl cfg m0 ms a c b :
+  Forall noNL (m0 :: ms) ->
+  fmt_tail cfg ms = ms -> sq ms = ms ->
+  (if f_at_start cfg then dollar_head (fmt_head cfg m0 ms) ms else fmt_head cfg m0 ms) = m0 ->
+  joinl (m0 :: ms) = (a ++ [c]) ++ b -> is_sp_nl c = false -> forallb is_sp b = true ->
+  exists k0 ks, split_nl (a ++ [c]) = k0 :: ks /\ fmt_lines cfg k0 ks = k0 :: ks.
+Proof.
+  intros HM Et Es Eh EJ Hc Hb.
+  assert (HcSP : c <> SP) by (intros ->; discriminate).
+  assert (HcNL : c <> NL) by (intros ->; discriminate).
+  assert (HbN : noNL b).
+  { unfold noNL. apply Forall_forall. intros x Hx ->. rewrite forallb_forall in Hb. specialize (Hb NL Hx). discriminate. }
+  pose proof (split_joinl m0 ms HM) as HL. rewrite EJ in HL.
+  rewrite split_nl_app_gen, (split_nl_noNL_line b HbN) in HL. cbn [hd tl] in HL. rewrite app_nil_r in HL.
+  assert (EK : split_nl (a ++ [c]) = removelast (split_nl a) ++ [last (split_nl a) [] ++ [c]]).
+  { rewrite split_nl_app_gen. cbn [split_nl]. apply Z.eqb_neq in HcNL. rewrite HcNL. cbn [hd tl]. rewrite app_nil_r. reflexivity. }
+  set (I := removelast (split_nl a)) in *. set (lastK := last (split_nl a) [] ++ [c]) in *.
+  rewrite EK in HL. rewrite removelast_last, last_snoc in HL.
+  assert (HlK1 : lastK <> []) by (unfold lastK; destruct (last (split_nl a) []); discriminate).
+  assert (HlK2 : ends_sp lastK = false).
+  { unfold lastK. rewrite ends_sp_app by discriminate. cbn. apply Z.eqb_neq. exact HcSP. }
+  assert (HlK3 : forallb is_sp lastK = false) by (apply ends_sp_not_all_sp; assumption).
+  assert (HlK4 : lstrip lastK <> []) by (apply lstrip_nonblank; exact HlK3).
+  set (n := (Z.to_nat (f_width cfg) * Z.to_nat (f_depth cfg))%nat).
+  assert (Eind : indent_bytes cfg = repeat SP n) by reflexivity.
+  rewrite EK. destruct I as [|i0 I'] eqn:EI.
+  - cbn [app] in HL. injection HL as Em0 Ems. exists lastK, []. split; [reflexivity|].
+    unfold fmt_lines. change (fmt_tail cfg []) with (@nil (list Z)). cbn [sq].
+    assert (EH : fmt_head cfg lastK [] = lastK).
+    { unfold fmt_head. cbn [is_nil]. unfold fmt_head in Eh. rewrite <- Em0, <- Ems in Eh. cbn [is_nil] in Eh.
+      destruct (f_at_start cfg) eqn:A.
+      - fold (head_start (lastK ++ b)) in Eh. fold (head_start lastK).
+        assert (Eh' : head_start (lastK ++ b) = lastK ++ b).
+        { unfold dollar_head in Eh. destruct (forallb is_sp _ && _); [|exact Eh]. destruct lastK; [congruence | discriminate]. }
+        rewrite head_start_app_sp in Eh' by assumption. apply app_inv_tail in Eh'. exact Eh'.
+      - rewrite head_xx_app_sp in Eh by (reflexivity || assumption). apply app_inv_tail in Eh. exact Eh. }
+    rewrite EH. destruct (f_at_start cfg); [|reflexivity]. unfold dollar_head. rewrite HlK3. reflexivity.
+  - cbn [app] in HL. injection HL as Em0 Ems. subst i0. exists m0, (I' ++ [lastK]). split; [reflexivity|].
+    assert (Et2 : fmt_tail cfg (I' ++ [lastK]) = I' ++ [lastK]).
+    { rewrite fmt_tail_lines, map_last_snoc.
+      rewrite fmt_tail_lines in Et. destruct (map_last_fix_inv _ _ Et) as [F1 F2]. f_equal.
+      - rewrite <- (map_id I') at 2. apply map_ext_in. intros x Hx. apply F1. rewrite <- Ems.
+        apply in_removelast_app. exact Hx.
+      - f_equal. rewrite Eind in *.
+        assert (Hl : last ms [] = lastK ++ b) by (rewrite <- Ems; apply last_last).
+        assert (Hne : ms <> []) by (rewrite <- Ems; destruct I'; discriminate).
+        specialize (F2 Hne). rewrite Hl in F2. unfold tail_line, indent_last in *. cbn [andb] in *.
+        rewrite reind2_app_sp in F2 by assumption.
+        rewrite forallb_app, all_sp_reind2, HlK3 in F2. cbn [andb] in F2. apply app_inv_tail in F2.
+        rewrite all_sp_reind2, HlK3. exact F2. }
+    unfold fmt_lines. rewrite Et2.
+    assert (Esq : sq (I' ++ [lastK]) = I' ++ [lastK]).
+    { rewrite sq_eq. apply sq'_fixed.
+      apply (dbl_swap_last I' (lastK ++ b) lastK); [destruct lastK; [congruence | discriminate] | exact HlK1 |].
+      rewrite Ems. rewrite <- Es, sq_eq. apply dbl_sq'. }
+    rewrite Esq. f_equal.
+    assert (N1 : is_nil ms = false) by (rewrite <- Ems; destruct I'; reflexivity).
+    assert (N2 : is_single_empty ms = false).
+    { rewrite <- Ems. destruct I' as [|i I'']; cbn [app].
+      - destruct lastK; [congruence|]. reflexivity.
+      - destruct I''; cbn [app]; destruct i; reflexivity. }
+    assert (N3 : is_nil (I' ++ [lastK]) = false) by (destruct I'; reflexivity).
+    assert (N4 : is_single_empty (I' ++ [lastK]) = false).
+    { destruct I' as [|i I'']; cbn [app].
+      - destruct lastK; [congruence|]. reflexivity.
+      - destruct I''; cbn [app]; destruct i; reflexivity. }
+    rewrite (fmt_head_tail_irrelevant cfg m0 _ ms) by (rewrite N1, N3; reflexivity).
+    destruct (f_at_start cfg).
+    + rewrite dollar_head_keep in Eh by assumption. rewrite dollar_head_keep; assumption.
+    + exact Eh.
 Qed.
 
 Lemma all_spnl_repeat_sp n : forallb is_sp_nl (repeat SP n) = true.
@@ -2114,28 +2293,29 @@ Proof.
   pose proof (fmt_run_lines cfg r l0 ls HS) as E. rewrite He in E.
   destruct (fmt_lines cfg l0 ls) as [|m0 ms] eqn:EM; [discriminate|].
   destruct (fmt_lines_fixed_facts cfg l0 ls m0 ms EM) as (Ft & Fs & Fh).
-  destruct (trail_nl_spec (joinl (m0 :: ms))) as [[EJ Eo] | [(HJ1 & HJ2 & Eo) | (a & c & b & EJ & Hc0 & Hb & Eo)]].
-  - rewrite E, Eo. apply fmt_run_empty.
-  - rewrite E, Eo. apply fmt_run_nl_end. exact He.
-  - destruct b as [|b0 b'].
-    + (* no trailing white space at all: the lines themselves are the fixed point *)
-      cbn [is_nil] in Eo. rewrite <- EJ in Eo.
-      assert (Eo2 : fmt_run cfg r = joinl (m0 :: ms)) by (rewrite E; exact Eo).
-      assert (S2 : split_nl (canon_ws (fmt_run cfg r)) = m0 :: ms).
-      { rewrite canon_ws_id by exact Hc. rewrite Eo2. apply split_joinl. exact HM. }
-      rewrite (fmt_run_lines cfg (fmt_run cfg r) m0 ms S2), He.
-      rewrite (fmt_lines_idem cfg l0 ls m0 ms EM). symmetry. exact E.
-    + cbn [is_nil] in Eo.
-      assert (EJ' : joinl (m0 :: ms) = (a ++ [c]) ++ b0 :: b') by (rewrite EJ, <- app_assoc; reflexivity).
-      destruct (fmt_lines_end_fixed cfg m0 ms a c (b0 :: b') HM Ft Fs Fh EJ' Hc0 Hb) as (k0 & ks & EK & EF).
+  destruct (trail_nl_spec (joinl (m0 :: ms))) as [[HJ Eo] | (a & c & b & EJ & Hc0 & Hb & Eo)].
+  - rewrite E, Eo. destruct (existsb is_nl _); [apply fmt_run_nl_end; exact He | apply fmt_run_empty].
+  - assert (EJ' : joinl (m0 :: ms) = (a ++ [c]) ++ b) by (rewrite EJ, <- app_assoc; reflexivity).
+    destruct (existsb is_nl b) eqn:Nb.
+    + destruct (fmt_lines_end_fixed cfg m0 ms a c b HM Ft Fs Fh EJ' Hc0 Hb) as (k0 & ks & EK & EF).
       assert (Eo2 : fmt_run cfg r = (a ++ [c]) ++ [NL]) by (rewrite E, Eo, <- app_assoc; reflexivity).
       assert (S2 : split_nl (canon_ws (fmt_run cfg r)) = k0 :: (ks ++ [[]])).
       { rewrite canon_ws_id by exact Hc. rewrite Eo2, split_nl_app_nl, EK. reflexivity. }
       rewrite (fmt_run_lines cfg (fmt_run cfg r) k0 (ks ++ [[]]) S2), He, EF.
       rewrite joinl_snoc by discriminate. rewrite <- EK, joinl_split.
       rewrite <- app_assoc. cbn [app]. rewrite trail_nl_core; [| exact Hc0 |].
-      * cbn [is_nil]. rewrite Eo2, <- app_assoc. reflexivity.
+      * assert (X : existsb is_nl (NL :: indent_bytes cfg) = true) by reflexivity.
+        rewrite X, Eo2, <- app_assoc. reflexivity.
       * cbn [forallb]. unfold indent_bytes. rewrite all_spnl_repeat_sp. reflexivity.
+    + pose proof (all_spnl_no_nl b Hb Nb) as Hbs.
+      destruct (fmt_lines_end_fixed_nonl cfg m0 ms a c b HM Ft Fs Fh EJ' Hc0 Hbs) as (k0 & ks & EK & EF).
+      assert (Eo2 : fmt_run cfg r = a ++ [c]) by (rewrite E, Eo; reflexivity).
+      assert (S2 : split_nl (canon_ws (fmt_run cfg r)) = k0 :: ks).
+      { rewrite canon_ws_id by exact Hc. rewrite Eo2. exact EK. }
+      rewrite (fmt_run_lines cfg (fmt_run cfg r) k0 ks S2), He, EF.
+      rewrite <- EK, joinl_split.
+      change (a ++ [c]) with (a ++ c :: []). rewrite trail_nl_core by (assumption || reflexivity).
+      cbn [existsb]. rewrite Eo2. reflexivity.
 Qed.
 
 Theorem fmt_run_idempotent_all cfg r : fmt_run cfg (fmt_run cfg r) = fmt_run cfg r.
@@ -2143,10 +2323,198 @@ Proof.
   destruct (f_at_end cfg) eqn:E; [apply fmt_run_idempotent_end | apply fmt_run_idempotent]; exact E.
 Qed.
 
-(* ---------- a known finding at the very end of the file ----------
-   strip_line_edges keeps the blanks that follow the last line of the run; they cannot be dropped from the
-   norm: at the end of the file an empty run stays empty (no final newline is written) while a run of
-   blanks becomes one newline. *)
-Lemma fmt_run_end_blanks_refuted :
-  exists cfg r1 r2, f_at_end cfg = true /\ rstrip r1 = rstrip r2 /\ fmt_run cfg r1 <> fmt_run cfg r2.
-Proof. exists (mk_fcfg false true 2 0), [], [SP; SP]. split; [reflexivity|]. split; [reflexivity|]. vm_compute. discriminate. Qed.
+(* ---------- blanks after the last token of a file that has no final newline ----------
+   (the third fix: they used to become a newline, so that adding trailing spaces to the last line changed
+   the output) *)
+Theorem fmt_run_end_only_blanks cfg r : f_at_end cfg = true -> forallb is_sp r = true -> fmt_run cfg r = [].
+Proof.
+  intros He Hr.
+  assert (Hc : clean r).
+  { unfold clean. apply Forall_forall. intros x Hx. rewrite forallb_forall in Hr. specialize (Hr x Hx).
+    unfold is_sp in Hr. apply Z.eqb_eq in Hr. subst x. split; discriminate. }
+  assert (Hn : noNL r).
+  { unfold noNL. apply Forall_forall. intros x Hx ->. rewrite forallb_forall in Hr. specialize (Hr NL Hx). discriminate. }
+  assert (S : split_nl (canon_ws r) = [r]) by (rewrite canon_ws_id by exact Hc; apply split_nl_noNL_line; exact Hn).
+  rewrite (fmt_run_lines cfg r r [] S), He. unfold fmt_lines. change (fmt_tail cfg []) with (@nil (list Z)). cbn [sq].
+  pose proof (proj1 (all_sp_lstrip r) Hr) as El.
+  assert (EH : fmt_head cfg r [] = r).
+  { unfold fmt_head. cbn [is_nil]. destruct (f_at_start cfg).
+    - rewrite (head_xx_blank DASH _ r El). apply head_xx_blank. exact El.
+    - apply head_xx_blank. exact El. }
+  rewrite EH.
+  assert (EA : forallb is_sp_nl (if f_at_start cfg then dollar_head r [] else r) = true /\
+               existsb is_nl (if f_at_start cfg then dollar_head r [] else r) = false).
+  { destruct (f_at_start cfg).
+    - unfold dollar_head. rewrite Hr. cbn. auto.
+    - split; [apply all_sp_all_spnl; exact Hr|].
+      destruct (existsb is_nl r) eqn:N; [|reflexivity]. apply existsb_exists in N. destruct N as (x & Hx & Hx2).
+      unfold is_nl in Hx2. apply Z.eqb_eq in Hx2. subst x. unfold noNL in Hn. rewrite Forall_forall in Hn. destruct (Hn NL Hx eq_refl). }
+  destruct EA as [A1 A2]. cbn [joinl flat map concat]. rewrite app_nil_r.
+  rewrite trail_nl_allspnl by exact A1. rewrite A2. reflexivity.
+Qed.
+
+(* ====================================================================== E at the end of the file:
+   also the blanks that end the last line of the file are layout *)
+Definition rstrip_last (L : list (list Z)) : list (list Z) :=
+  match L with
+  | [] => []
+  | _ => removelast L ++ [rstrip (last L [])]
+  end.
+
+Definition strip_line_edges_end (at_start : bool) (s : list Z) : list Z :=
+  joinl (edge_strip at_start (rstrip_last (split_nl s))).
+
+Lemma rstrip_decomp l : exists sp, l = rstrip l ++ sp /\ forallb is_sp sp = true.
+Proof.
+  induction l as [|c l IH]; [exists []; auto|]. cbn [rstrip]. destruct (forallb is_sp (c :: l)) eqn:F.
+  - exists (c :: l). auto.
+  - destruct IH as (sp & E & Hs). exists sp. split; [cbn [app]; f_equal; exact E | exact Hs].
+Qed.
+
+Lemma trail_nl_app_sp x sp : forallb is_sp sp = true -> trail_nl (x ++ sp) = trail_nl x.
+Proof.
+  intros Hs. pose proof (all_sp_all_spnl sp Hs) as Hs2.
+  assert (Hn : existsb is_nl sp = false).
+  { destruct (existsb is_nl sp) eqn:N; [|reflexivity]. apply existsb_exists in N. destruct N as (y & Hy & Hy2).
+    rewrite forallb_forall in Hs. specialize (Hs y Hy). unfold is_sp in Hs. unfold is_nl in Hy2.
+    apply Z.eqb_eq in Hs, Hy2. subst. discriminate. }
+  destruct (spnl_decomp x) as [H | (a & c & b & -> & Hc & Hb)].
+  - rewrite !trail_nl_allspnl by (try rewrite forallb_app, H, Hs2; reflexivity || assumption).
+    rewrite existsb_app, Hn, orb_false_r. reflexivity.
+  - rewrite <- app_assoc. cbn [app]. rewrite !trail_nl_core by (try rewrite forallb_app, Hb, Hs2; reflexivity || assumption).
+    rewrite existsb_app, Hn, orb_false_r. reflexivity.
+Qed.
+
+Lemma joinl_last_app L x sp : joinl (L ++ [x ++ sp]) = joinl (L ++ [x]) ++ sp.
+Proof.
+  destruct L as [|l ls].
+  - cbn. rewrite !app_nil_r. reflexivity.
+  - rewrite !joinl_snoc by discriminate. rewrite <- app_assoc. reflexivity.
+Qed.
+
+(* the squeeze does not look at a non-empty last line *)
+Lemma sq'_step t t1 r' : r' <> [] ->
+  sq' (t :: t1 :: r') = if is_nil t && is_nil t1 then sq' (t1 :: r') else t :: sq' (t1 :: r').
+Proof. destruct r'; [congruence | reflexivity]. Qed.
+
+Lemma sq'_last_nonempty T : exists T', forall y, y <> [] -> sq' (T ++ [y]) = T' ++ [y].
+Proof.
+  induction T as [|t T IH].
+  - exists []. intros y _. reflexivity.
+  - destruct IH as (T' & IH). destruct T as [|t1 T1].
+    + exists [t]. intros y Hy. reflexivity.
+    + destruct (is_nil t && is_nil t1) eqn:D.
+      * exists T'. intros y Hy. change ((t :: t1 :: T1) ++ [y]) with (t :: t1 :: (T1 ++ [y])).
+        rewrite sq'_step by (destruct T1; discriminate). rewrite D. apply (IH y Hy).
+      * exists (t :: T'). intros y Hy. change ((t :: t1 :: T1) ++ [y]) with (t :: t1 :: (T1 ++ [y])).
+        rewrite sq'_step by (destruct T1; discriminate). rewrite D. cbn [app]. f_equal. apply (IH y Hy).
+Qed.
+
+Lemma fmt_lines_rstrip_last cfg l0 ls : Forall noNL (l0 :: ls) ->
+  trail_nl (joinl (fmt_lines cfg (hd [] (rstrip_last (l0 :: ls))) (tl (rstrip_last (l0 :: ls)))))
+  = trail_nl (joinl (fmt_lines cfg l0 ls)).
+Proof.
+  intros HN. set (n := (Z.to_nat (f_width cfg) * Z.to_nat (f_depth cfg))%nat).
+  assert (Eind : indent_bytes cfg = repeat SP n) by reflexivity.
+  destruct ls as [|l1 ls'] using rev_ind.
+  - (* a single line *)
+    cbn [rstrip_last removelast last app hd tl].
+    destruct (rstrip_decomp l0) as (sp & E & Hs). remember (rstrip l0) as v eqn:Dv.
+    unfold fmt_lines. change (fmt_tail cfg []) with (@nil (list Z)). cbn [sq joinl flat map concat]. rewrite !app_nil_r.
+    unfold fmt_head. cbn [is_nil].
+    destruct (forallb is_sp l0) eqn:B.
+    + (* blank *)
+      assert (Ev : v = []) by (rewrite Dv; apply rstrip_all_sp; exact B).
+      pose proof (proj1 (all_sp_lstrip l0) B) as El.
+      rewrite Ev. destruct (f_at_start cfg).
+      * rewrite (head_xx_blank DASH _ l0 El), (head_xx_blank SLASH _ l0 El). unfold dollar_head. rewrite B. reflexivity.
+      * rewrite (head_xx_blank DASH _ l0 El). cbn.
+        rewrite trail_nl_allspnl by (apply all_sp_all_spnl; exact B).
+        assert (Hn : existsb is_nl l0 = false).
+        { destruct (existsb is_nl l0) eqn:N; [|reflexivity]. apply existsb_exists in N. destruct N as (y & Hy & Hy2).
+          rewrite forallb_forall in B. specialize (B y Hy). unfold is_sp in B. unfold is_nl in Hy2.
+          apply Z.eqb_eq in B, Hy2. subst. discriminate. }
+        rewrite Hn. reflexivity.
+    + assert (Hv : lstrip v <> []).
+      { apply lstrip_nonblank. destruct (forallb is_sp v) eqn:F; [|reflexivity].
+        rewrite E, forallb_app, F, Hs in B. discriminate. }
+      destruct (f_at_start cfg); rewrite E.
+      * fold (head_start v). fold (head_start (v ++ sp)). rewrite head_start_app_sp by assumption.
+        unfold dollar_head. cbn [is_nil orb]. rewrite !andb_true_r, forallb_app, Hs, andb_true_r.
+        destruct (forallb is_sp (head_start v)); [reflexivity|]. symmetry. apply trail_nl_app_sp. exact Hs.
+      * rewrite head_xx_app_sp by (reflexivity || assumption). symmetry. apply trail_nl_app_sp. exact Hs.
+  - (* the last line is a later one *)
+    clear IHls'. set (P := ls') in *. set (x := l1) in *.
+    assert (ERL : rstrip_last (l0 :: P ++ [x]) = l0 :: P ++ [rstrip x]).
+    { unfold rstrip_last. change (l0 :: P ++ [x]) with ((l0 :: P) ++ [x]). rewrite removelast_last, last_last. reflexivity. }
+    rewrite ERL. cbn [hd tl].
+    destruct (rstrip_decomp x) as (sp & E & Hs). remember (rstrip x) as v eqn:Dv.
+    unfold fmt_lines.
+    rewrite (fmt_head_tail_irrelevant cfg l0 (P ++ [v]) (P ++ [x])) by (destruct P; reflexivity).
+    rewrite !fmt_tail_lines, !map_last_snoc.
+    set (T := map (tail_line (indent_bytes cfg) false) P).
+    destruct (forallb is_sp x) eqn:B.
+    + assert (Ev : v = []) by (rewrite Dv; apply rstrip_all_sp; exact B).
+      assert (E1 : tail_line (indent_bytes cfg) true x = tail_line (indent_bytes cfg) true v).
+      { rewrite Ev. unfold tail_line, indent_last. cbn [andb]. rewrite Eind, !all_sp_reind2, B. reflexivity. }
+      rewrite E1. reflexivity.
+    + assert (Hv : lstrip v <> []).
+      { apply lstrip_nonblank. destruct (forallb is_sp v) eqn:F; [|reflexivity].
+        rewrite E, forallb_app, F, Hs in B. discriminate. }
+      assert (Bv : forallb is_sp v = false).
+      { destruct (forallb is_sp v) eqn:F; [|reflexivity]. apply all_sp_lstrip in F. congruence. }
+      set (y := tail_line (indent_bytes cfg) true v).
+      assert (E1 : tail_line (indent_bytes cfg) true x = y ++ sp).
+      { unfold y, tail_line, indent_last. cbn [andb]. rewrite E. rewrite Eind, reind2_app_sp by assumption.
+        rewrite forallb_app, !all_sp_reind2, Bv. reflexivity. }
+      assert (Hy : y <> []).
+      { unfold y, tail_line, indent_last. cbn [andb]. rewrite Eind, all_sp_reind2, Bv.
+        intros Ey. pose proof (all_sp_reind2 n v) as A. rewrite Ey, Bv in A. discriminate. }
+      assert (Hys : y ++ sp <> []) by (destruct y; [congruence | discriminate]).
+      rewrite E1. destruct (sq'_last_nonempty T) as (T' & HT). rewrite !sq_eq, (HT y Hy), (HT (y ++ sp) Hys).
+      assert (D : forall h z, z <> [] -> dollar_head h (T ++ [z]) = h).
+      { intros h z Hz. apply dollar_head_keep; [destruct T; reflexivity|].
+        destruct T as [|a [|b T'']]; cbn [app]; [destruct z; [congruence | reflexivity] | destruct a; reflexivity | destruct a; reflexivity]. }
+      set (h := fmt_head cfg l0 (P ++ [x])).
+      assert (EH : (if f_at_start cfg then dollar_head h (T ++ [y ++ sp]) else h) = (if f_at_start cfg then dollar_head h (T ++ [y]) else h)).
+      { destruct (f_at_start cfg); [rewrite !D by assumption|]; reflexivity. }
+      rewrite EH. set (h' := if f_at_start cfg then dollar_head h (T ++ [y]) else h).
+      change (h' :: T' ++ [y ++ sp]) with ((h' :: T') ++ [y ++ sp]). change (h' :: T' ++ [y]) with ((h' :: T') ++ [y]).
+      rewrite joinl_last_app. symmetry. apply trail_nl_app_sp. exact Hs.
+Qed.
+
+Lemma noNL_rstrip_last L : Forall noNL L -> Forall noNL (rstrip_last L).
+Proof.
+  intros H. destruct L as [|l L']; [constructor|]. unfold rstrip_last. apply Forall_app. split.
+  - rewrite Forall_forall in *. intros x Hx. apply H. destruct (exists_last (l := l :: L') ltac:(discriminate)) as (q & z & E).
+    rewrite E in *. rewrite removelast_last in Hx. apply in_or_app. left. exact Hx.
+  - constructor; [|constructor]. apply noNL_rstrip. rewrite Forall_forall in H. apply H.
+    destruct (exists_last (l := l :: L') ltac:(discriminate)) as (q & z & E). rewrite E, last_last.
+    apply in_or_app. right. left. reflexivity.
+Qed.
+
+Theorem fmt_run_depends_on_norm_end cfg r1 r2 : f_at_end cfg = true ->
+  strip_line_edges_end (f_at_start cfg) (canon_ws r1) = strip_line_edges_end (f_at_start cfg) (canon_ws r2) ->
+  fmt_run cfg r1 = fmt_run cfg r2.
+Proof.
+  unfold strip_line_edges_end. intros He H.
+  destruct (split_nl (canon_ws r1)) as [|a1 t1] eqn:S1; [destruct (split_nl_nonempty _ S1)|].
+  destruct (split_nl (canon_ws r2)) as [|a2 t2] eqn:S2; [destruct (split_nl_nonempty _ S2)|].
+  pose proof (split_nl_noNL (canon_ws r1)) as N1. rewrite S1 in N1.
+  pose proof (split_nl_noNL (canon_ws r2)) as N2. rewrite S2 in N2.
+  rewrite (fmt_run_lines cfg r1 a1 t1 S1), (fmt_run_lines cfg r2 a2 t2 S2), He.
+  rewrite <- (fmt_lines_rstrip_last cfg a1 t1 N1), <- (fmt_lines_rstrip_last cfg a2 t2 N2).
+  pose proof (noNL_rstrip_last _ N1) as M1. pose proof (noNL_rstrip_last _ N2) as M2.
+  destruct (rstrip_last (a1 :: t1)) as [|b1 u1] eqn:R1; [destruct t1; discriminate|].
+  destruct (rstrip_last (a2 :: t2)) as [|b2 u2] eqn:R2; [destruct t2; discriminate|].
+  cbn [hd tl].
+  apply (f_equal split_nl) in H.
+  assert (E1 : exists x y, edge_strip (f_at_start cfg) (b1 :: u1) = x :: y) by (eexists _, _; reflexivity).
+  assert (E2 : exists x y, edge_strip (f_at_start cfg) (b2 :: u2) = x :: y) by (eexists _, _; reflexivity).
+  destruct E1 as (x1 & y1 & E1). destruct E2 as (x2 & y2 & E2).
+  pose proof (noNL_edge_strip (f_at_start cfg) _ M1) as K1.
+  pose proof (noNL_edge_strip (f_at_start cfg) _ M2) as K2.
+  rewrite E1 in H, K1. rewrite E2 in H, K2. rewrite !split_joinl in H by assumption.
+  rewrite <- (fmt_lines_edge cfg b1 u1), <- (fmt_lines_edge cfg b2 u2).
+  rewrite E1, E2, H. reflexivity.
+Qed.
